@@ -8,7 +8,7 @@ import (
 	"verifharness/internal/vkit"
 )
 
-func init() { register("C19", runC19, "Gen.R1") }
+func main() { vkit.Main("C19", []string{"Gen.R1"}, runC19) }
 
 func r1Term(i r1.Interval) string { return vkit.App("mk_r1_Interval", vkit.F(i.Lo), vkit.F(i.Hi)) }
 
